@@ -19,8 +19,12 @@ IdxWidth(n) == IF n <= 1 THEN 1 ELSE WidthOf(n - 1)
 \* content: [defs, reps, vals]; cuts: increasing sequence of row positions (in level entries) ending at Len(defs)
 \* opt: [style, idxStyle, useDict, dictOffsetField, dictEnc, dataEnc, crc, codec, stats]
 MkChunk(leaf, content, cuts, opt) ==
-    LET dict == IF opt.useDict /\ content.vals # <<>> THEN Dedup(content.vals) ELSE <<>>     \* no empty dictionaries
-        bw == IdxWidth(Len(dict)) + opt.extraWidth
+    LET dict == IF opt.useDict /\ content.vals # <<>> THEN Dedup(content.vals) ELSE <<>>
+        \* an all-null chunk gets an empty dictionary page (and dictionary-encoded pages of zero indices) only on request
+        emptyD == opt.useDict /\ content.vals = <<>> /\ "emptyDict" \in DOMAIN opt /\ opt.emptyDict
+        \* index width: the minimal width of the largest index (a dictionary of one entry has width 0 with minW0, as
+        \* minimal-width writers emit; width 1 otherwise), optionally wider than needed
+        bw == (IF Len(dict) <= 1 /\ "minW0" \in DOMAIN opt /\ opt.minW0 THEN 0 ELSE IdxWidth(Len(dict))) + opt.extraWidth
         page(k) ==
             LET a == IF k = 1 THEN 1 ELSE cuts[k - 1] + 1
                 b == cuts[k]
@@ -29,20 +33,24 @@ MkChunk(leaf, content, cuts, opt) ==
                 v0 == NonNull(content.defs, 1, a - 1, leaf.maxDef)
                 nn == NonNull(content.defs, a, b, leaf.maxDef)
                 vals == SubSeq(content.vals, v0 + 1, v0 + nn)
-                idx == IF dict # <<>> THEN [i \in 1..nn |-> IndexIn(dict, vals[i])] ELSE <<>>
+                \* which pages are dictionary-encoded: all of them, only the first (the usual fall-back to PLAIN when a
+                \* dictionary grows too large), or all but the first (legal, unusual)
+                mix == IF "mixEnc" \in DOMAIN opt THEN opt.mixEnc ELSE "all"
+                useD == (dict # <<>> \/ emptyD) /\ (mix = "all" \/ (mix = "fallback" /\ k = 1) \/ (mix = "reverse" /\ k > 1))
+                idx == IF useD /\ dict # <<>> THEN [i \in 1..nn |-> IndexIn(dict, vals[i])] ELSE <<>>
             IN [n |-> b - a + 1, nn |-> nn,
                 defRuns |-> RunStyle(defs, opt.style, leaf.maxDef), repRuns |-> RunStyle(reps, opt.style, leaf.maxRep),
-                enc |-> IF dict # <<>> THEN opt.dataEnc ELSE 0, vals |-> vals,
-                encTag |-> IF opt.encTag # 255 THEN opt.encTag ELSE IF dict # <<>> THEN opt.dataEnc ELSE 0,
+                enc |-> IF useD THEN opt.dataEnc ELSE 0, vals |-> vals,
+                encTag |-> IF opt.encTag # 255 THEN opt.encTag ELSE IF useD THEN opt.dataEnc ELSE 0,
                 v2 |-> opt.v2, nrows |-> Len(SelectSeq(reps, LAMBDA r : r = 0)),
                 bw |-> bw, idxRuns |-> RunStyle(idx, opt.idxStyle, 0),
                 crc |-> opt.crc, stats |-> NoStatsW, hmut |-> IF opt.hmutPage = k THEN opt.hmut ELSE [kind |-> "none"]]
     IN [type |-> leaf.type, tlen |-> leaf.tlen, maxDef |-> leaf.maxDef, maxRep |-> leaf.maxRep, path |-> leaf.path,
         codec |-> opt.codec, codecTag |-> IF opt.codecTag # 255 THEN opt.codecTag ELSE opt.codec, dict |-> dict, dictOffsetField |-> opt.dictOffsetField, dictEnc |-> opt.dictEnc,
-        pages |-> [k \in 1..Len(cuts) |-> page(k)], stats |-> opt.stats,
+        pages |-> [k \in 1..Len(cuts) |-> page(k)], stats |-> opt.stats, emptyDict |-> emptyD,
         \* hostile-file hook (C04): hmutPage = 0 addresses the header of the dictionary page
         dhmut |-> IF opt.hmutPage = 0 THEN opt.hmut ELSE [kind |-> "none"]]
 
 DefaultOpt == [style |-> "rle", idxStyle |-> "rle", useDict |-> FALSE, dictOffsetField |-> TRUE, dictEnc |-> 0, dataEnc |-> 8,
-               crc |-> "none", codec |-> 0, stats |-> NoStatsW, extraWidth |-> 0, v2 |-> FALSE, encTag |-> 255, codecTag |-> 255, hmutPage |-> 0, hmut |-> [kind |-> "none"]]
+               crc |-> "none", codec |-> 0, stats |-> NoStatsW, extraWidth |-> 0, v2 |-> FALSE, encTag |-> 255, codecTag |-> 255, hmutPage |-> 0, hmut |-> [kind |-> "none"], mixEnc |-> "all", minW0 |-> FALSE, emptyDict |-> FALSE]
 =============================================================================
